@@ -30,6 +30,8 @@ type c02Case struct {
 	// "elapses" (the read deadline the server has armed, if any, is fired); the peer then carries
 	// on sending the rest of the message and the commands behind it.
 	Stall int `json:"stall"`
+	// Pause: the peer pauses right before the end marker; nothing may have been answered by then
+	Pause bool `json:"pause"`
 	// LineLimit: Server.MaxLineLength (0 = the default)
 	LineLimit int `json:"line_limit"`
 }
@@ -130,6 +132,16 @@ func c02Run(ctx *core.Ctx) {
 								}
 								emit(c)
 								c.LineLimit = 0
+								if rd >= 0 && sg == "one" && (idx/2)%2 == 0 && mode != modeLMTPRcpt {
+									// (not with a per-recipient LMTP backend: there every reply is the
+									// backend's own statement, relayed as soon as it is made - by design,
+									// pinned by the repository's tests)
+									// a backend that returns before the end of the message, and a peer that
+									// pauses before sending the end marker
+									c.Pause = true
+									emit(c)
+									c.Pause = false
+								}
 								if rd == -1 && lim == 0 && sg != "cuts" {
 									// the same transfer overtaken by the read timeout right before its first
 									// bait line (or in the middle of the body)
@@ -165,7 +177,7 @@ func c02Exec(ctx *core.Ctx, c c02Case) {
 			nontrivial = true
 		}
 	}
-	ctx.Eval(fmt.Sprintf("%q|%d|%v|%d|%s|%s|%v|%d", c.Body, c.Read, c.Reject, c.Limit, c.Mode, c.Seg, c.Cuts, c.Stall)+fmt.Sprint("|", c.LineLimit), nontrivial)
+	ctx.Eval(fmt.Sprintf("%q|%d|%v|%d|%s|%s|%v|%d", c.Body, c.Read, c.Reject, c.Limit, c.Mode, c.Seg, c.Cuts, c.Stall)+fmt.Sprint("|", c.LineLimit, c.Pause), nontrivial)
 
 	rig := newRig(c.Mode, func(s *smtp.Server) {
 		s.MaxMessageBytes = c.Limit
@@ -227,6 +239,25 @@ func c02Exec(ctx *core.Ctx, c c02Case) {
 			ctx.Add("read_deadlines_fired_inside_a_message", 1)
 		}
 	}
+	var early []wire.Reply
+	if c.Pause && !fired {
+		p.Send(c.Body)
+		full = full[len(c.Body):]
+		var perr error
+		early, perr = p.ReadUntilStall()
+		positive := false
+		for _, r := range early {
+			if r.Class() == 2 {
+				positive = true
+			}
+		}
+		if positive {
+			p.Close()
+			rig.Finish()
+			ctx.Violate("C02:reply-before-end-of-data", fmt.Sprintf("the end marker has not been sent yet, but the server has already answered positively: %s (%v) [body=%q read=%d reject=%v limit=%d mode=%s]", codes(early), perr, c.Body, c.Read, c.Reject, c.Limit, c.Mode), c, witness(rig.Log, append(head, early...)))
+			return
+		}
+	}
 	switch c.Seg {
 	case "one":
 		p.Send(full)
@@ -244,6 +275,7 @@ func c02Exec(ctx *core.Ctx, c c02Case) {
 	}
 	p.SendStr("QUIT\r\n")
 	tail, err := p.ReadAll()
+	tail = append(early, tail...) // (negative) replies that arrived during the pause
 	p.Close()
 	fin := rig.Finish()
 	if isWatchdog(err) || !fin {
